@@ -7,7 +7,8 @@ UNIVERSE = ("any append bool byte cap clear close comparable complex complex128 
             "float64 imag int int16 int32 int64 int8 iota len make max min new nil panic print println real recover rune "
             "string true uint uint16 uint32 uint64 uint8 uintptr").split()
 
-PKG_POOL = ["err", "cleanup", "cleanup2", "arg", "v", "util", "server", "err2", "context", "str", "errs", "x1", "foo", "init"]
+PKG_POOL = ["err", "cleanup", "cleanup2", "arg", "v", "util", "server", "err2", "context", "str", "errs", "x1", "foo", "init", "copy", "len", "new", "append",
+            "string", "nil", "error"]
 TYPE_POOL = ["Err", "Err2", "Cleanup", "Cleanup2", "Arg", "V", "Select", "Func", "Type", "Var", "Range", "Go", "Map", "Chan",
              "Default", "Error", "String", "Int", "Bool", "Nil", "True", "Len", "New", "Make", "Util", "Server", "Context",
              "Wire", "Fmt", "Wtrace", "HTTPServer", "URL", "ID", "X1", "Z9", "Foo", "Foo2", "Foo_2", "Bar", "Append", "Any",
@@ -100,6 +101,11 @@ def adversarial(rng, prog, opts=None):
             if it["kind"] == "func" and rng.random() < 0.8:
                 count[it["pkg"]] += 1
                 it["fn"] = "Mk%d" % count[it["pkg"]]
+    # a helper in the injector file that calls built-in functions: Wire copies it, and the names under which the
+    # generated file imports packages must not capture them
+    if rng.random() < opts.get("p_builtin_helper", 0.6):
+        prog.inj_helpers = ["func wireBuiltinsHelper(xs []int) int {\n\tb := make([]int, len(xs), cap(xs)+1)\n\tn := copy(b, xs)\n"
+                            "\tb = append(b, *new(int))\n\tvar s string = \"x\"\n\tvar e error = nil\n\t_ = e\n\treturn n + len(b) + len(s)\n}"]
     # extra declarations in the injector package (never a name the package's own files need)
     taken = set(used["app"]) | quals | {"Anchor"}
     pool = rng.sample(DECL_POOL, rng.randint(0, 4))
